@@ -1942,9 +1942,13 @@ func (c *HostClient) connsCleaner() {
 
 func (c *HostClient) CloseConn(cc *clientConn) {
 	verifPoint("hc.close.enter")
+	// Close the socket before the slot is given back: decConnsCount may start
+	// a dial for a waiting request (or let a concurrent AcquireConn dial), and
+	// that new connection must not coexist with the one being closed, or more
+	// than MaxConns connections are open at once.
+	cc.c.Close()
 	c.decConnsCount()
 	verifPoint("hc.close.afterdec")
-	cc.c.Close()
 	releaseClientConn(cc)
 }
 
